@@ -48,7 +48,7 @@ PROPS = {
     tasks=T('handover:limbs', 'handover:tower', 'mirvc:specs_groups', 'mirvc:specs_lib', 'kani:dec_quick', 'gsearch:all', 'gsearch:release', 'csearch:debug', 'csearch:release', 'ground:all'),
     trusted_base=[A['A3'], A['A4'], A['A7'], A['A9']],
     assumptions=[A['A3'], A['A4'], A['A7']],
-    explanation='AffineG::new: Ok iff y^2 = x^3 + b and (check_order => [r-1]P + P = O), for both values of check_order'),
+    explanation='AffineG::new: Ok iff y^2 = x^3 + b and (check_order => [r-1]P + P = O), for both values of check_order (mirvc); every decoder reaches it with exactly the parsed coordinates (Kani modular decoder harnesses); the scalar used is r-1 (ground)'),
  'C06': dict(
     tasks=(lambda tier: ['handover:limbs', 'verus:divrem', 'verus:invr', 'kani:arkff', 'kani:limbs_linear', 'kani:field_linear', 'mirvc:specs_lib', 'mirvc:specs_loops', 'lsearch:all', 'lsearch:release', 'ground:all'] if tier == 'quick' else ['handover:limbs', 'verus:divrem', 'verus:invr', 'kani:arkff', 'kani:limbs_linear', 'kani:field_linear', 'mirvc:specs_lib', 'mirvc:specs_loops', 'lsearch:all', 'lsearch:release', 'ground:all']),
     trusted_base=[A['A1'], A['A6'], A['A7']],
@@ -83,13 +83,13 @@ PROPS = {
     tasks=T('handover:limbs', 'handover:tower', 'verus:divrem', 'kani:field_linear', 'mirvc:specs_sqrt', 'mirvc:specs_loops', 'lsearch:all', 'lsearch:release', 'mirvc:specs_lib', 'csearch:debug', 'csearch:release', 'ground:all'),
     trusted_base=[A['A2'], A['A7']],
     assumptions=[A['A2'], A['A7']],
-    explanation='Fq::sqrt in the exponent domain under Euler\'s three cases: sqrt(0) = 0, Some(s) with s*s = x on every path for non-zero squares (sound + complete), None for non-squares; pow by the loop-invariant obligation; Fq2::sqrt: every returned root squares to x (17 paths, incl. the zero-imaginary branch), sqrt(0) = 0; completeness of Fq2::sqrt is not decided by proof (search only); decoders rely on it through csearch'),
+    explanation='Fq::sqrt in the exponent domain under Euler\'s three cases: sqrt(0) = 0, Some(s) with s*s = x on every path for non-zero squares (sound + complete), None for non-squares; pow by the loop-invariant obligation; Fq2::sqrt: every returned root squares to x (17 paths, incl. the zero-imaginary branch), sqrt(0) = 0; Fq2::sqrt completeness: for x = (p + r u)^2 every feasible path returns Some (Fq::sqrt calls replaced by their full contract, decided from the factorisation c*g^2 and the ground Legendre symbol of c; 2 and -2 non-residues are ground facts); Fq::div2 by Verus and Kani; decoders rely on it through csearch'),
  'C18': dict(
     tasks=(lambda tier: ['handover:limbs', 'verus:divrem', 'verus:invr', 'kani:limbs_linear', 'kani:field_linear', 'kani:bytes', 'kani:dec_quick', 'kani:enc', 'kani:dispatch', 'psearch:all', 'pairsearch:all'] if tier == 'quick' else
            ['handover:limbs', 'verus:divrem', 'verus:invr', 'kani:limbs_linear', 'kani:field_linear', 'kani:bytes', 'kani:dec_quick', 'kani:enc', 'kani:dispatch', 'kani:dec_strict', 'psearch:all', 'pairsearch:all']),
     trusted_base=[A['A6'], A['A7'], A['A9'], A['A11']],
     assumptions=[A['A6'], A['A7'], A['A11']],
-    explanation='every Kani harness proves all default checks (overflow, shift, index, unwrap, debug_assert, unreachable) of the real MIR it reaches, with debug assertions on; the dual-profile search executes every request on the dev and the release build and compares'),
+    explanation='every Kani harness proves all default checks (overflow, shift, index, unwrap, debug_assert, unreachable) of the real MIR it reaches, with debug assertions on; the Verus chains prove the absence of overflow / out-of-range index / truncation in every limb-layer function they cover (a lost proof makes C18 undecided); the dual-profile searches (limbs, codecs, groups, pairings) execute every request on the dev and the release build and compare; the debug-only assertion of U512::divrem is executed by these searches, not proved (rule R15)'),
  'C03': dict(
     tasks=T('handover:limbs', 'handover:tower', 'handover:groups', 'mirvc:specs_pairing', 'mirvc:specs_lib', 'mirvc:specs_groups', 'mirvc:specs_fexp', 'pairsearch:all', 'ground:all'),
     trusted_base=[A['A4'], A['A5'], A['A7'], A['A8'], A['A9']],
